@@ -582,3 +582,9 @@ class linqset(linkseq[_T], MutableSequenceSet[_T]):
             departures.__contains__,
             filter(self.__contains__, arrivals)):
             raise Emsg.DuplicateValue(v)
+        # A value may not arrive twice.
+        seen = set()
+        for v in arrivals:
+            if v in seen:
+                raise Emsg.DuplicateValue(v)
+            seen.add(v)
